@@ -33,6 +33,7 @@ func c07(c *Ctx) {
 	replayAllLinesRule(c, "R9")
 	replayVotesRule(c, "R10")
 	c07R11(c)
+	c07R12(c)
 	shared(c, "C06", c06R1)
 }
 
@@ -308,7 +309,6 @@ func walSkipRule(c *Ctx, id string) {
 	}
 	c.R.Ob(rule, "skip-returns", n >= 2, c.P.Pos(f.F.Pos()), fname(f), fmt.Sprintf("%d returns without a write", n))
 }
-
 
 // replayAllLinesRule (C07-R9, C04-R9): every line after the height marker is replayed.
 func replayAllLinesRule(c *Ctx, id string) {
